@@ -152,6 +152,7 @@ type rEval struct {
 	harness  string // a report that names no library frame: trouble of the harness, not a verdict
 	unowned  bool   // goroutines the scheduler did not start were running: not a simulation
 	switches int
+	skip     string // why there was no interleaved run to judge
 }
 
 var frameRe = regexp.MustCompile(`(?m)^\s+(\S+?)\(.*\)\n\s+(\S+\.go):(\d+) \+0x`)
@@ -217,6 +218,7 @@ func evalR(tasks []C19Task, mk func(solo []*rRun) *simrt.RSched) *rEval {
 		ev.solo = append(ev.solo, s)
 		if s.unowned {
 			ev.unowned = true
+			ev.skip = "unowned goroutines (solo)"
 			return ev
 		}
 		if s.race != "" {
@@ -224,9 +226,11 @@ func evalR(tasks []C19Task, mk func(solo []*rRun) *simrt.RSched) *rEval {
 		}
 		if s.stalled || s.deadlock {
 			ev.abandon = fmt.Sprintf("task %d alone: stalled=%v deadlock=%v", ti, s.stalled, s.deadlock)
+			ev.skip = "stalled or deadlocked (solo)"
 			return ev
 		}
 		if s.overrun || s.overflow {
+			ev.skip = fmt.Sprintf("solo run cut short (overrun=%v overflow=%v)", s.overrun, s.overflow)
 			return ev
 		}
 	}
@@ -312,6 +316,7 @@ func rlaneMain(argv []string) int {
 	scratch := fs.String("scratch", os.TempDir(), "")
 	file := fs.String("file", "", "replay file")
 	budget := fs.Duration("budget", time.Minute, "")
+	caseLogDir := fs.String("caselog", "", "directory for per-case hash logs (determinism self-test)")
 	fs.Parse(argv)
 	invn := loadInventory(*inv)
 	prepareRuntime(invn)
@@ -368,6 +373,12 @@ func rlaneMain(argv []string) int {
 		w.violLog = vl
 		defer vl.Close()
 	}
+	if *caseLogDir != "" {
+		if fl, err := os.OpenFile(filepath.Join(*caseLogDir, fmt.Sprintf("r%02d.log", *wi)), os.O_CREATE|os.O_APPEND|os.O_WRONLY, 0o644); err == nil {
+			w.caseLog = fl
+			defer fl.Close()
+		}
+	}
 	deadline := time.Now().Add(*budget)
 	next := int64(-1) // index at which a successor process is to continue (-1: done)
 	var mu sync.Mutex
@@ -416,6 +427,9 @@ func rlaneMain(argv []string) int {
 			w.St.Errors = append(w.St.Errors, fmt.Sprintf("lane R case %d: goroutines the simulator did not start are running (a dependency or an unrewritten construct starts them); lane R stopped in this worker", idx))
 			break
 		}
+		if ev.skip != "" {
+			w.St.Probes["laneR_no_interleaved_run: "+ev.skip]++
+		}
 		if ev.harness != "" {
 			w.St.Errors = append(w.St.Errors, fmt.Sprintf("lane R case %d: %s", idx, ev.harness))
 			w.St.Extra["laneR_reports_without_library_frame"]++
@@ -437,6 +451,19 @@ func rlaneMain(argv []string) int {
 				}
 				w.addNontrivial(h)
 			}
+		}
+		if in := ev.inter; in != nil && w.caseLog != nil {
+			// event hash of the case: every result, every scheduling decision
+			h := callSetHash(tasks)
+			for ti := range in.results {
+				for ci := range in.results[ti] {
+					h = h*1099511628211 ^ in.results[ti][ci].Fingerprint()
+				}
+			}
+			for _, d := range in.rs.Decisions() {
+				h = h*1099511628211 ^ uint64(d.Yield)<<20 ^ uint64(d.From)<<8 ^ uint64(d.To) ^ hashStrings(d.Kind)
+			}
+			fmt.Fprintf(w.caseLog, "%d R%016x\n", idx, h)
 		}
 		for _, cl := range sortedKeys(ev.clauses) {
 			var sched []simrt.SchedDecision
@@ -489,7 +516,7 @@ func runLaneR(f *commonFlags, scratch string) (map[string]any, []*Violation, int
 	if v := os.Getenv("VERIF_LANER_CASES"); v != "" {
 		fmt.Sscan(v, &cases)
 	}
-	env := append(os.Environ(), "GORACE=halt_on_error=0 exitcode=0", "GOMAXPROCS=2")
+	env := append(os.Environ(), "GORACE=halt_on_error=0 exitcode=0", "GOMAXPROCS="+gomaxprocsFor(f.workers))
 	deadline := time.Now().Add(budget)
 	t0 := time.Now()
 	tot := newStats("C19")
@@ -511,6 +538,9 @@ func runLaneR(f *commonFlags, scratch string) (map[string]any, []*Violation, int
 			for from >= 0 && from < cases && time.Now().Before(deadline) && withReport < 3 {
 				cmd := exec.Command(f.laneR, "rlane", "-seed", fmt.Sprint(f.seed), "-w", fmt.Sprint(i), "-n", fmt.Sprint(f.workers), "-from", fmt.Sprint(from),
 					"-cases", fmt.Sprint(cases), "-tier", f.tier, "-inv", f.inv, "-scratch", scratch, "-budget", time.Until(deadline).String())
+				if f.caseLog != "" {
+					cmd.Args = append(cmd.Args, "-caselog", f.caseLog)
+				}
 				cmd.Env = env
 				out, err := cmd.CombinedOutput()
 				sp := filepath.Join(scratch, fmt.Sprintf("rstats.%d.%d.json", i, from))
@@ -547,7 +577,15 @@ func runLaneR(f *commonFlags, scratch string) (map[string]any, []*Violation, int
 		"wall_s": time.Since(t0).Seconds(), "processes": procs, "cases": tot.Cases, "executions": tot.Evaluations, "distinct_interleavings": len(distinct),
 		"preemptions": tot.FaultKinds["preemption"], "preemptions_inside_a_call": tot.FaultKinds["preemption_inside_a_call"],
 		"library_go_statements_simulated": tot.Probes["library_go_statements_simulated"], "yield_events": tot.LogicalTime,
-		"cases_abandoned": tot.Extra["laneR_cases_abandoned"], "notes": tot.Errors}
+		"cases_abandoned": tot.Extra["laneR_cases_abandoned"], "notes": tot.Errors, "probes": tot.Probes}
+	for _, e := range tot.Errors {
+		fmt.Println("note: lane R:", e)
+	}
+	for _, k := range sortedKeys(tot.Probes) {
+		if strings.HasPrefix(k, "laneR_no_interleaved_run") {
+			fmt.Printf("note: %s: %d case(s)\n", k, tot.Probes[k])
+		}
+	}
 	if tot.Extra["unowned_goroutines_seen"] > 0 {
 		fmt.Printf("note: goroutines the simulator did not start were seen in %d lane-R runs: lane R gives no verdict for this tree; verdict from lane B\n", tot.Extra["unowned_goroutines_seen"])
 		info["skipped"] = "goroutines the simulator did not start were seen"
